@@ -11,6 +11,7 @@ mod engine_opts;
 mod engine_ssi;
 mod engine_trace;
 mod engine_trace_mt;
+mod engine_tracker;
 mod lin;
 mod engine_views;
 mod exec;
@@ -120,6 +121,7 @@ fn main() {
         "jbytes-worker" => engine_jbytes::worker_main(&args),
         "miri-codec" => engine_miri::codec_main(&args),
         "miri-db" => engine_miri::db_main(&args),
+        "tracker" => engine_tracker::main(&args),
         "director" => engine_director::main(&args),
         "director-replay" => engine_director::replay_main(&args),
         "trace-mt" => engine_trace_mt::main(&args),
